@@ -30,7 +30,7 @@ func init() {
 		os.Setenv("GODEBUG", gd+"rsa1024min=0")
 	}
 	zv.Register(&zv.Prop{ID: "C23", Topic: "c23", Gen: gen, Exec: exec,
-		Rule: "constructed keys 512..2048 bits (quick; ..4096 thorough), 2..5 primes, e in {3, 65537, random 33..bits-bit}, d mod lcm or totient, with / without / with corrupted Precomputed values; per key: raw encrypt/decrypt, PKCS#1 v1.5 and OAEP encryption/decryption, PKCS#1 v1.5 and PSS sign/verify over MD5..SHA-512 and every salt mode, each with mutated signatures/ciphertexts/digests/keys; direct EMSA-PSS encode/verify cases with mutated encodings; malformed public keys (nil/0/negative N, nil/0/1/negative E) through every public operation. A case is one distinct (operation, key, inputs) line; T3 = crypto/rsa accepts/decrypts/produces the same wherever its limits allow, plus math/big references"})
+		Rule: "constructed keys 512..2049 bits (quick; ..4097 thorough) incl. modulus bit lengths = 1..7 mod 8 (513, 777, 1025, 1028, 1031, 1033, 2049, ...: emLen = k-1 resp. 1..7 masked top bits in EMSA-PSS), 2..5 primes, e in {3, 65537, random 33..bits-bit}, d mod lcm or totient, with / without / with corrupted Precomputed values; per key: raw encrypt/decrypt, PKCS#1 v1.5 and OAEP encryption/decryption, PKCS#1 v1.5 and PSS sign/verify over MD5..SHA-512 and every salt mode, each with mutated signatures/ciphertexts/digests/keys and with forgeries made with the private key (roots of EM + 2^(modBits-1) = the must-be-zero top bit / leading octet of the representative, of EM + j*256^(k-1), of EM with one structural defect; s + j*n; n - s; zero-extended); direct EMSA-PSS encode/verify cases with mutated encodings; malformed public keys (nil/0/negative N, nil/0/1/negative E) through every public operation. A case is one distinct (operation, key, inputs) line; T3 = crypto/rsa accepts/decrypts/produces the same wherever its limits allow, plus math/big references (an accepted signature has length k, s < n and a representative of the RFC 8017 shape: PSS m < 2^(modBits-1), v1.5 00 01 FF.. 00 ..digest)"})
 }
 
 var modelHashes = []crypto.Hash{crypto.MD5, crypto.SHA1, crypto.SHA224, crypto.SHA256, crypto.SHA384, crypto.SHA512}
@@ -118,7 +118,7 @@ func exec(line string) zv.Out {
 	out := ""
 	keyTags := func(p *zrsa.PublicKey, np int) {
 		if p.N != nil && p.E != nil {
-			tags = append(tags, fmt.Sprintf("bits=%d", (p.N.BitLen()+255)/256*256), fmt.Sprintf("ebits<=%d", (p.E.BitLen()+31)/32*32))
+			tags = append(tags, fmt.Sprintf("bits=%d", (p.N.BitLen()+255)/256*256), fmt.Sprintf("ebits<=%d", (p.E.BitLen()+31)/32*32), fmt.Sprintf("bits%%8=%d", p.N.BitLen()%8))
 		}
 		if np > 0 {
 			tags = append(tags, fmt.Sprintf("primes=%d", np))
@@ -273,11 +273,18 @@ func exec(line string) zv.Out {
 			if err == nil {
 				fail("VerifyPKCS1v15 accepted under a malformed public key")
 			}
-		} else if sp := stdPub(p); sp != nil && stdHash(h) {
-			tags = append(tags, "std")
-			err2 := crsa.VerifyPKCS1v15(sp, h, dg, sig)
-			if (err == nil) != (err2 == nil) {
-				fail("VerifyPKCS1v15: zcrypto says %v, crypto/rsa says %v", err, err2)
+		} else {
+			if sp := stdPub(p); sp != nil && stdHash(h) {
+				tags = append(tags, "std")
+				err2 := crsa.VerifyPKCS1v15(sp, h, dg, sig)
+				if (err == nil) != (err2 == nil) {
+					fail("VerifyPKCS1v15: zcrypto says %v, crypto/rsa says %v", err, err2)
+				}
+			}
+			why, tag := acceptedShape(p, sig, false, dg)
+			tags = append(tags, "shape="+tag)
+			if err == nil && why != "" {
+				fail("VerifyPKCS1v15 accepted a signature that RFC 8017 8.2.2 rejects: %s", why)
 			}
 		}
 	case "pssenc": // hash mHash emBits salt
@@ -336,11 +343,20 @@ func exec(line string) zv.Out {
 			if err == nil {
 				fail("VerifyPSS accepted under a malformed public key")
 			}
-		} else if sp := stdPub(p); sp != nil && sl >= -1 {
-			tags = append(tags, "std")
-			err2 := crsa.VerifyPSS(sp, h, dg, sig, &crsa.PSSOptions{SaltLength: sl, Hash: h})
-			if (err == nil) != (err2 == nil) {
-				fail("VerifyPSS: zcrypto says %v, crypto/rsa says %v", err, err2)
+		} else {
+			if sp := stdPub(p); sp != nil && sl >= -1 {
+				tags = append(tags, "std")
+				err2, decided := StdVerifyPSS(sp, h, dg, sig, sl)
+				if !decided {
+					tags = append(tags, "std-panics")
+				} else if (err == nil) != (err2 == nil) {
+					fail("VerifyPSS: zcrypto says %v, crypto/rsa says %v", err, err2)
+				}
+			}
+			why, tag := acceptedShape(p, sig, true, dg)
+			tags = append(tags, "shape="+tag)
+			if err == nil && why != "" {
+				fail("VerifyPSS accepted a signature that RFC 8017 8.1.2 rejects: %s", why)
 			}
 		}
 	case "oaepenc": // hash N E rnd msg label
@@ -407,6 +423,67 @@ func exec(line string) zv.Out {
 	}
 	return zv.Out{Go: out, Viol: viol, Tags: tags}
 }
+
+// acceptedShape: math/big-only necessary conditions of RFC 8017 on an ACCEPTED signature (independent of both RSA
+// packages, so it also covers keys outside crypto/rsa's limits): len(sig) = k, s < n, and for the representative
+// m = s^e mod n: PSS (8.1.2 step 2c) m < 2^(modBits-1), i.e. I2OSP(m, emLen) exists and the 8*emLen-emBits top bits are
+// zero; PKCS#1 v1.5 (9.2) I2OSP(m, k) = 00 01 FF..FF(>= 8) 00 T with T ending in the digest. why = "" when they hold;
+// tag names the first condition that fails (evidence histogram: which classes of bad signatures were reached).
+func acceptedShape(p *zrsa.PublicKey, sig []byte, pss bool, digest []byte) (why, tag string) {
+	k := (p.N.BitLen() + 7) / 8
+	if len(sig) != k {
+		return fmt.Sprintf("signature of %d octets, modulus of %d", len(sig), k), "length"
+	}
+	s := new(big.Int).SetBytes(sig)
+	if s.Cmp(p.N) >= 0 {
+		return "signature representative s >= n", "s>=n"
+	}
+	m := new(big.Int).Exp(s, p.E, p.N)
+	if pss {
+		if m.BitLen() > p.N.BitLen()-1 {
+			tag = "rep-top-bits-set"
+			if p.N.BitLen()%8 == 1 {
+				tag = "rep-leading-octet-set" // emLen = k-1
+			}
+			return fmt.Sprintf("s^e mod n has %d bits, emBits = %d (non-zero bits above the encoded message)", m.BitLen(), p.N.BitLen()-1), tag
+		}
+		return "", "rep-fits"
+	}
+	em := m.FillBytes(make([]byte, k))
+	if k < 11 || em[0] != 0 || em[1] != 1 {
+		if em[0] != 0 {
+			return "EM does not start with 00 01", "rep-leading-octet-set"
+		}
+		return "EM does not start with 00 01", "rep-blocktype"
+	}
+	i := 2
+	for i < k && em[i] == 0xff {
+		i++
+	}
+	if i-2 < 8 || i >= k || em[i] != 0 {
+		return "EM padding string is not FF..FF (>= 8 octets) followed by 00", "rep-padding"
+	}
+	if !bytes.HasSuffix(em[i+1:], digest) {
+		return "EM does not end with the digest", "rep-digest"
+	}
+	return "", "rep-wellformed"
+}
+
+// StdVerifyPSS runs crypto/rsa.VerifyPSS as the T3 reference. decided = false when the REFERENCE itself panics: Go 1.25.0
+// crypto/internal/fips140/rsa.emsaPSSVerify indexes db[0] of an empty slice for PSSSaltLengthAuto when emLen = hLen+1
+// (e.g. a 514..521-bit modulus with SHA-512); zcrypto returns an error there, as the model predicts. Such a line is
+// then decided by the model and the math/big oracle only.
+func StdVerifyPSS(sp *crsa.PublicKey, h crypto.Hash, dg, sig []byte, sl int) (err error, decided bool) {
+	defer func() {
+		if recover() != nil {
+			err, decided = nil, false
+		}
+	}()
+	return crsa.VerifyPSS(sp, h, dg, sig, &crsa.PSSOptions{SaltLength: sl, Hash: h}), true
+}
+
+// StdPub is stdPub for other packages (C03): the crypto/rsa form of the key, nil outside crypto/rsa's limits.
+func StdPub(p *zrsa.PublicKey) *crsa.PublicKey { return stdPub(p) }
 
 func slMode(sl int) string {
 	switch {
